@@ -46,6 +46,6 @@ def run(tier):
     return rk.finish(chk, "one evaluation = one byte string through one bounded input kind on one build; code, value "
                           "(integers with value and sign, floats bit-exact, strings byte-exact, bin/ext re-serialized "
                           "byte for byte) and consumed bytes compared", rk.COMMON_ASSUMPTIONS + [
-        "duplicate map keys are generated only when distinct (the format allows duplicates, the property is silent)",
+        "maps with repeated keys are generated too: MsgPack.tla keeps every entry in order, as the format allows",
         "ARDUINOJSON_USE_LONG_LONG=0 is not exercised",
         "with ARDUINOJSON_USE_DOUBLE=0 a float64 is compared after rounding to float (1.2e-7 relative)"])
